@@ -152,7 +152,25 @@ class Impl:
             shutil.rmtree(os.path.join(self.P(op["hist"]), "ascmhl"), ignore_errors=True)
             return None
 
+        # how the root path is spelled on the command line (the model only sees the normalised path)
+        cwd = None
+        sp = op.get("spell")
+        if sp == "slash":
+            at = at + "/"
+        elif sp == "dot":
+            at = os.path.join(at, ".")
+        elif sp == "dotdot" :
+            at = os.path.join(at, "..", os.path.basename(at)) if os.path.basename(at) else at
+        elif sp == "relative":
+            cwd = os.path.dirname(at.rstrip("/")) or "/"
+            at = os.path.basename(at.rstrip("/"))
+        elif sp == "cwd":
+            cwd = at
+            at = "."
+        absat = self.P(op.get("at", ""))
         before = self.manifests()
+        asc_before = self.asc_snapshot()
+        media_before = self.media_snapshot()
         if k == "create":
             args = [at]
             for h in op.get("h", []):
@@ -161,8 +179,9 @@ class Impl:
                 args.append("-n")
             if op.get("dr"):
                 args.append("-dr")
-            for s in op.get("sf", []):
-                args += ["-sf", os.path.join(at, s) if s else at]
+            raws = op.get("sf_raw") or op.get("sf", [])
+            for s in raws:
+                args += ["-sf", os.path.join(absat, s) if s else absat]
             for i in op.get("i", []):
                 args += ["-i", i]
             if op.get("ii"):
@@ -170,16 +189,16 @@ class Impl:
             for o2 in ("author_name", "author_email", "author_phone", "author_role", "location", "comment"):
                 if op.get(o2) is not None:
                     args += ["--" + o2, op[o2]]
-            r = rt.run("create", args, now)
+            r = rt.run("create", args, now, cwd)
         elif k == "verify":
             args = [at]
             if op.get("sf") is not None:
-                args += ["-sf", os.path.join(at, op["sf"])]
+                args += ["-sf", os.path.join(absat, op.get("sf_raw") or op["sf"])]
             for i in op.get("i", []):
                 args += ["-i", i]
             if op.get("ii"):
                 args += ["-ii", self._ii(op["ii"])]
-            r = rt.run("verify", args, now)
+            r = rt.run("verify", args, now, cwd)
         elif k == "verifydh":
             args = [at, "-dh"]
             if op.get("h"):
@@ -190,25 +209,27 @@ class Impl:
                 args.append("-ro")
             for i in op.get("i", []):
                 args += ["-i", i]
-            r = rt.run("verify", args, now)
+            r = rt.run("verify", args, now, cwd)
         elif k == "diff":
             args = [at]
             for i in op.get("i", []):
                 args += ["-i", i]
-            r = rt.run("diff", args, now)
+            r = rt.run("diff", args, now, cwd)
         elif k == "info":
-            r = rt.run("info", [at], now)
+            r = rt.run("info", [at], now, cwd)
         elif k == "infosf":
-            r = rt.run("info", [at, "-sf", os.path.join(at, op["file"])], now)
+            r = rt.run("info", [at, "-sf", os.path.join(absat, op["file"])], now, cwd)
         elif k == "flatten":
             self.flat_n += 1
             dest = os.path.join(self.base, "_flat%d" % self.flat_n)
-            r = rt.run("flatten", [at, dest], now)
+            r = rt.run("flatten", [at, dest], now, cwd)
             op["_dest"] = dest
         else:
             raise ValueError(k)
         after = self.manifests()
         obs = {"exit": r.exit, "exc": r.exc}
+        obs["asc_before"], obs["asc_after"] = asc_before, self.asc_snapshot()
+        obs["media_before"], obs["media_after"] = media_before, self.media_snapshot()
         cls = rt.classify_output(r.out)
         relat = op.get("at", "")
         obs["mismatch"] = sorted(set(cls["mismatch"]))
@@ -220,7 +241,7 @@ class Impl:
         for a, files in after.items():
             newf = [f for f in files if f not in before.get(a, []) and f.endswith(".mhl")]
             for f in newf:
-                hist = os.path.relpath(os.path.dirname(os.path.join(self.root, a)), at)
+                hist = os.path.relpath(os.path.dirname(os.path.join(self.root, a)), absat)
                 m = rt.read_manifest(os.path.join(self.root, a, f))
                 written.append({"hist": hist, "gen": m, "file": f})
         obs["written"] = sorted(written, key=lambda w: (w["hist"], w["file"]))
@@ -228,6 +249,32 @@ class Impl:
             pls = glob.glob(os.path.join(glob.escape(op["_dest"]), "*", "*.mhl"))
             obs["written"] = [{"hist": ".", "gen": rt.read_manifest(p), "file": os.path.basename(p)} for p in sorted(pls)]
         return obs
+
+    def asc_snapshot(self):
+        """{path relative to the scenario root: bytes} of every file inside an ascmhl folder"""
+        out = {}
+        for a in rt.ascmhl_dirs(self.root):
+            for dp, dns, fns in os.walk(os.path.join(self.root, a)):
+                for fn in fns:
+                    p = os.path.join(dp, fn)
+                    with open(p, "rb") as f:
+                        out[os.path.relpath(p, self.root)] = f.read()
+        return out
+
+    def media_snapshot(self):
+        """{relpath: bytes | None(dir)} + metadata of everything outside ascmhl folders"""
+        out = {}
+        for dp, dns, fns in os.walk(self.root):
+            dns[:] = [x for x in dns if x != "ascmhl"]
+            rel = os.path.relpath(dp, self.root)
+            st = os.lstat(dp)
+            out[rel] = (None, st.st_mode, st.st_mtime_ns if rel != "." else 0)
+            for fn in fns:
+                p = os.path.join(dp, fn)
+                st = os.lstat(p)
+                with open(p, "rb") as f:
+                    out[os.path.normpath(os.path.join(rel, fn))] = (f.read(), st.st_mode, st.st_mtime_ns)
+        return out
 
     def file_contents(self):
         out = set()
